@@ -13,7 +13,7 @@ PROP = dict(
          "both alphabets) and int32 boundaries/random for raw, JSON, TL; addresses zero / all-ones / leading zeros / "
          "random; every id goes through every form on Go alone (go.addr.roundtrip) and printer+parser vs model; "
          "non-trivial = distinct (workchain, address). substitutions: all 48 x 63 single-digit substitutions of N "
-         "distinct friendly strings (quick N=200, thorough N=2000), each must be rejected; non-trivial = distinct "
+         "distinct friendly strings (quick N=300, thorough N=4000; the driver runs a csimp-proved table-driven CRC), each must be rejected; non-trivial = distinct "
          "string. malformed stream: fixed list (empty, no colon, short/odd/long/upper-case hex, signs, leading zeros, "
          "int32 overflow, two colons, newlines, wrong length, padding) + 12 mutation kinds applied to valid raw, "
          "friendly, base64, base32 and ADNL strings. ADNL: random addresses, with/without .adnl, upper case, same-length "
@@ -33,19 +33,21 @@ PROP = dict(
         "where Go also rejects",
         "JSON: UnmarshalJSON is modelled for documents of the form \"<printable ASCII without quote and backslash>\" "
         "(no escapes, no surrounding whitespace) plus the malformed classes generated; encoding/json itself is not modelled",
-        "TL-B: the bit-level parser models addr_none and addr_std (with anycast); addr_extern / addr_var belong to the "
-        "TL-B codec properties (C03/C04)",
+        "TL-B: all four MsgAddress constructors are modelled at the bit level and proved equal to the TL-B slice's schema "
+        "spec (tlb_bits_eq_tlb_spec); a nil *BitString / nil AddrVar pointer (Go panics) is outside this model, see C03",
         "MatchAccountID is modelled on the first 8 address bytes read big-endian (the regenerated definition takes that "
         "uint64 as its input); the byte read itself is covered by the correspondence (addresses with dirty lower bytes)",
     ],
     partial=[],
+    line_timeout="120s",   # the substitution lines do 3024 parses each; generous because checks run under heavy machine load
     level_text=(
         "Theorems for ALL inputs (kernel-checked, no bv_decide/native_decide): shard_roundtrip, match_is_prefix "
         "(prefix lengths 0..63), match_block (+ zero shard), parent_child_inverse, child_parent_inverse, "
         "child_extends_prefix, convert_shard_ident (0..63), anycast_rewrite (depths 1..30) on 64/32-bit wrap-around "
         "arithmetic; raw_roundtrip (all int32 x 256-bit), raw_short_hex (zero-fill), human_roundtrip (int8 x 4 flag "
         "combinations x both alphabets), human/tlb_workchain_truncated, parse_dispatch, json_roundtrip, tl_roundtrip, "
-        "tlb_roundtrip, tlb_bits_roundtrip, adnl_base32_roundtrip, and single_char_rejected (every 48-character valid "
+        "tlb_roundtrip, tlb_bits_roundtrip, tlb_bits_eq_tlb_spec + tlb_bits_roundtrip_all (all four constructors), adnl_base32_roundtrip, parse_address_flags (root package tongo.ParseAddress: id and "
+        "bounce flag survive print->parse), and single_char_rejected (every 48-character valid "
         "string x 48 positions x 63 other digit values is rejected) via CRC linearity. Tie: the integer code of "
         "ton/shards.go, ton/block.go, the anycast arithmetic of ton/account.go, utils.Crc16/Crc16String step and the "
         "256-entry TABLE are REGENERATED from the Go source on every run (X4) and proved equal to the hand model "
